@@ -22,7 +22,7 @@ import validators as V
 
 SRV = "gopher.example"
 IMPORTS06 = "Lib.Str Model.Entry Model.RenderUrl Model.ClientView Corr.K06"
-IMPORTS13 = "Lib.Str Model.Entry Model.RenderUrl Model.ClientView Corr.K06 Corr.K13"
+IMPORTS13 = "Lib.Str Model.Entry Model.GopherPlus Model.RenderUrl Model.ClientView Corr.K06 Corr.K13"
 PRE = "From Coq Require Import ZArith.\n"
 
 
@@ -507,10 +507,19 @@ def run_k13(chk, tier):
             meta.append(("url_page", pre + "http://www.example.com/" + p))
         pc.append({"what": "wap_deck", "text": L("line " + p + "\n\n" + p + "  \n<p>&amp;</p>")})
         meta.append(("wap_deck", "line " + p + "\n\n" + p + "  \n<p>&amp;</p>"))
-        pc.append({"what": "gplus_block", "name": L("ABSTRACT"), "value": L("A " + p + "\nsecond\x0b+X:\x85" + p + "\u2028+INFO: x")})
-        meta.append(("gplus_block", ("ABSTRACT", "A " + p + "\nsecond\x0b+X:\x85" + p + "\u2028+INFO: x")))
+        for gv in ("A " + p + "\nsecond\x0b+X:\x85" + p + "\u2028+INFO: x", p + "\n", "x\n\n+" + p + ":\r\n", p):
+            pc.append({"what": "gplus_block", "name": L("ABSTRACT"), "value": L(gv)})
+            meta.append(("gplus_block", ("ABSTRACT", gv)))
     cfg_nt = {"protocols.http.HTTPProtocol": {"pagetopper": None}}
     r_nt = _split(pc, "c13_pages", {"config": cfg_nt, "srvname": L(SRV), "srvport": 70})
+    # which getblock does the code under test implement: with or without the final blank line of a value
+    # that ends in a newline (fixed in /repo 3d93275)?  The model of Model/GopherPlus.v has both.
+    pr = impl_run([{"op": "c13_pages", "config": cfg_nt, "srvname": L(SRV), "srvport": 70,
+                    "cases": [{"what": "gplus_block", "name": L("ABSTRACT"), "value": L("a\n")}]}])[0]
+    if not pr["ok"]:
+        raise RuntimeError(pr["err"] + pr.get("tb", ""))
+    keep_blank = S(pr["res"][0]["out"]) == "+ABSTRACT:\r\n a\r\n \r\n"
+    details["gplus_block_variant"] = "keeps final blank line" if keep_blank else "pinned (plain splitlines)"
     # the directory start once more with the shipped page topper (GOPHERURL substituted)
     pc_t = [c for c in pc if c["what"] == "http_dirstart"]
     meta_t = [m for m in meta if m[0] == "http_dirstart"]
@@ -541,7 +550,7 @@ def run_k13(chk, tier):
         elif what in ("http_404", "wap_404", "wap_deck", "url_page"):
             add("chk_" + what, "(%s, %s)" % (coq_str(x), coq_str(out)), rawc)
         elif what == "gplus_block":
-            add("chk_gplus_block", "((%s, %s), %s)" % (coq_str(x[0]), coq_str(x[1]), coq_str(out)), rawc)
+            add("chk_gplus_block", "((%s, (%s, %s)), %s)" % (coq_bool(keep_blank), coq_str(x[0]), coq_str(x[1]), coq_str(out)), rawc)
         if out is not None and what not in ("gplus_block",):
             pages.append((what, out.split("\r\n\r\n", 1)[1] if what in ("http_404", "wap_404") else out))
     for (what, x), o in zip(meta_t, r_t):
